@@ -50,7 +50,7 @@ SPEC = {
     "driver": "drv_c10",
     "harness": "c10",
     "theorems": ["C10_wf_preserved", "C10_refines", "C10_refines_run", "C10_foreign_noop", "C10_neighbours",
-                 "C10_init_resets", "C10_remove_any_state",
+                 "C10_init_resets", "C10_remove_any_state", "C10_foreign_noop_spec", "C10_ring_after_run", "C10_old_moveBefore_witness",
                  "C10_code_translated", "C10_code_same_as_container_list", "C10_code_is_model", "C10_code_is_container_list",
                  "C10_code_observers", "C10_code_walks", "C10_traversals", "C10_code_refines_run", "C10_container_list_meets_spec", "C10_code_wrappers",
                  "C10_skeleton_writers", "C10_skeleton_readers", "C10_skeleton_pushlists", "C10_skeleton_type_shapes",
@@ -62,7 +62,8 @@ SPEC = {
         "the hand-written model Hive/Model/DList.lean is no longer trusted (proved equal to the translated code, C10_code_is_model) "
         "and is additionally tied by differential execution (harness/c10), stale-handle histories included",
         "Go's container/list executed in the harness as the independent reference the property names (and translated: "
-        "C10_code_same_as_container_list)",
+        "C10_code_same_as_container_list); also the reference of the Go-side linearizability oracle",
+        "harness/tools/extract-sync (lock skeletons of the 20 wrapper methods) as the tie of the protocol model TS.tsSys to the code",
         "Go toolchain, compiled Lean driver"],
     "modelled": [
         "ds.list Init/lazyInit/Front/Back/Len/PushFront/PushBack/Remove/InsertBefore/InsertAfter/MoveToFront/MoveToBack/MoveBefore/"
@@ -76,9 +77,14 @@ SPEC = {
         "nil dereference and the 'unsupported ListElement type' panics are NOT modelled (unreachable from well-formed states)",
         "handles that were live when Init was called on their list are outside the refinement-to-specification theorems (okRun) but "
         "inside the code theorems (same pointer program as container/list on every state) and inside the three-way differential",
-        "concurrency of the thread-safe flavour is NOT modelled in Lean; it is smoke-tested by the harness (stress + forced "
-        "two-writer schedules behind a parked reader; oracle: no panic/deadlock, well-formed ring, Len, element multiset; "
-        "reader calls deliver exactly one snapshot), and its lock structure is a regenerated skeleton obligation (C10_skeleton_*)"],
+        "concurrent use of the thread-safe flavour: protocol model TS.tsSys (Hive/Model/DListConc.lean) — one RWMutex in front of a "
+        "sequential object, arbitrary thread pool and programs, writer = Lock / first read / commit from that read / Unlock, reader = "
+        "RLock / first read / second read / RUnlock, linearization log with stamps; instantiated with the pointer-level list model "
+        "(12 mutating methods under the write lock, 8 observers under the read lock; lock kinds and the one-inner-call shape are "
+        "regenerated skeleton obligations); recorded histories of concurrent runs are judged by the linearizability checker linSearch "
+        "(sound: C10_lincheck_sound) in the Lean driver and, independently, against container/list in Go",
+        "NOT modelled: two different thread-safe lists locking each other (lock order), a source list mutated while it is being "
+        "pushed, Prev/Next/Value of elements read concurrently with writers (lock-free atomics)"],
     "manifest": {
         "text": "Pointer-level Lean model of ds.List (heap of prev/next/owner/val nodes, two sentinel rings, the same loads/stores as "
                 "insert/remove/move) with theorems over every history: the ring well-formedness invariant is preserved "
@@ -88,18 +94,27 @@ SPEC = {
                 "C10_traversals). The model is proved equal, on every state, to the meaning of the code translated from the working "
                 "tree on every run (C10_code_is_model, C10_code_walks), whose statement lists are identical to those translated from "
                 "Go's container/list (C10_code_same_as_container_list, C10_code_is_container_list: same pointer program also for stale "
-                "handles), giving C10_code_refines_run end to end. The tie is re-validated by a three-way differential run: both "
-                "flavours of ds.List vs the Lean driver vs Go's container/list on random two-list histories with live, removed, "
-                "foreign and stale handles, aborted traversals, and Values() aliasing.",
+                "handles), giving C10_code_refines_run end to end. The thread-safe flavour under concurrent use is a protocol model "
+                "(one RWMutex, any number of goroutines and calls) with the theorem that every call takes effect at one point between "
+                "its invocation and its response and the effects in that order are a sequential history of the list "
+                "(C10_ts_linearizable, C10_ts_list_is_sequential), tied to the code by regenerated lock skeletons of all 20 wrapper "
+                "methods (C10_skeleton_*, C10_ts_lock_kinds). The tie is re-validated by a three-way differential run (both flavours of "
+                "ds.List vs the Lean driver vs Go's container/list on random two-list histories with live, removed, foreign and stale "
+                "handles, aborted traversals, Values() aliasing) and by recorded concurrent histories (forced schedules for every "
+                "mutating method queued behind a parked reader, stress rounds) judged for linearizability against container/list in Go "
+                "and by the Lean driver's checker (C10_lincheck_sound).",
         "note": "Trusted: Lean kernel; the translator harness/c10/xlate and the interpreter of its statement language; container/list "
-                "as reference. Histories passing handles that were live before an Init are outside the specification theorems (both "
-                "libraries leave them unspecified) but inside the code-level theorems and the differential. Concurrency of the "
-                "thread-safe flavour is outside the theorems; the harness smoke-tests it (stress rounds, forced schedules, reader "
-                "snapshots) with an in-Go oracle and its lock structure is a regenerated obligation.",
+                "as reference; harness/tools/extract-sync for the lock skeletons. Histories passing handles that were live before an "
+                "Init are outside the specification theorems (both libraries leave them unspecified) but inside the code-level "
+                "theorems and the differential. The protocol model treats the inner call as two steps (read, commit) under the lock; "
+                "that the code between Lock and Unlock is exactly one inner call is the skeleton obligation. Lock order between two "
+                "different thread-safe lists, a source mutated during a whole-list push and concurrent Prev/Next/Value are outside.",
         "technique": "Lean 4 refinement proof (pointer-level ring invariant, ghost abstract sequence) + source-to-IR translation with "
-                     "model = code theorems + three-way differential correspondence",
+                     "model = code theorems + protocol-level linearizability invariant (Hive.Conc.Sys) + three-way differential "
+                     "correspondence + linearizability checking of recorded concurrent histories",
     },
     "assumptions": ["no operation is given a handle that was live in a list when Init was called on that list (okRun) - for the "
                     "refinement-to-specification theorems only; the C10_code_* theorems are unconditional",
-                    "sequential histories (the property quantifies over histories, not schedules)"],
+                    "concurrent use: one thread-safe list whose whole-list-push sources are not mutated during the push; each wrapper "
+                    "method is lock / one inner call / deferred unlock (regenerated obligation)"],
 }
